@@ -300,6 +300,71 @@ pub fn roundtrip(ctx: &mut Ctx) {
                 }
             }
         }
+        // ---------- C03: re-cut every run of data chunks at arbitrary byte positions (inside the IV, inside a cipher block,
+        // inside a compressed frame, 1-byte chunks, empty chunks) and decode again: nothing may change
+        if bytes.len() < 400_000 {
+            if let Ok((chunks, _)) = refdec::chunks(&bytes) {
+                for round in 0..2 {
+                    let mut out = gen::SIG.to_vec();
+                    let mut i = 0;
+                    while i < chunks.len() {
+                        let (t, _) = &chunks[i];
+                        if t == b"FDAT" || t == b"SDAT" {
+                            let mut run: Vec<u8> = vec![];
+                            let ty = *t;
+                            while i < chunks.len() && chunks[i].0 == ty { run.extend_from_slice(&chunks[i].1); i += 1; }
+                            // cut points
+                            let mut pos = 0;
+                            let style = if round == 0 { 0 } else { rng.gen_range(1..4) };
+                            if rng.gen_bool(0.3) { out.extend(gen::frame(&ty, &[])); }
+                            while pos < run.len() {
+                                let n = match style { 0 => [1usize, 4, 11, 5, 16, 3][(pos / 3) % 6], 1 => 1, 2 => rng.gen_range(1..40), _ => rng.gen_range(1..=run.len() - pos) };
+                                let n = n.min(run.len() - pos);
+                                out.extend(gen::frame(&ty, &run[pos..pos + n]));
+                                if rng.gen_bool(0.05) { out.extend(gen::frame(&ty, &[])); }
+                                pos += n;
+                                if style == 1 && pos > 64 { out.extend(gen::frame(&ty, &run[pos..])); pos = run.len(); }
+                            }
+                        } else {
+                            out.extend(gen::frame(t, &chunks[i].1));
+                            i += 1;
+                        }
+                    }
+                    let pw2 = pw_opt.map(|s| s.to_string());
+                    let o2 = out.clone();
+                    let sched2 = sched.clone();
+                    let solid2 = solid;
+                    let re: Result<std::io::Result<Vec<(String, Vec<u8>)>>, String> = catch(move || {
+                        let mut a = Archive::read_header(&o2[..])?;
+                        let es: Vec<NormalEntry> = a.entries_with_password(pw2.as_deref()).collect::<std::io::Result<_>>()?;
+                        let mut v = vec![];
+                        for e in es {
+                            let r = e.reader(ReadOptions::with_password(if solid2 { None } else { pw2.clone() }))?;
+                            v.push((e.header().path().as_str().to_string(), read_with_schedule(r, &sched2)?));
+                        }
+                        Ok(v)
+                    });
+                    ctx.oracle_eval();
+                    let want: Vec<(String, Vec<u8>)> = lib.iter().zip(written.iter()).map(|(le, wi)| {
+                        let spec = &entries[*wi];
+                        let c: Vec<u8> = match spec.kind { Kind::File => spec.content.clone(), Kind::Dir => vec![], _ => EntryReference::from(spec.link.as_str()).as_str().as_bytes().to_vec() };
+                        (le.header().path().as_str().to_string(), c)
+                    }).collect();
+                    match re {
+                        Ok(Ok(v)) if v == want => {}
+                        other => {
+                            let why = match other { Ok(Ok(_)) => "different contents".to_string(), Ok(Err(e)) => format!("error: {e}"), Err(p) => format!("panic: {p}") };
+                            ctx.violation("C03", "decoding depends on where the data chunks are cut (re-cut archive decodes differently)", json!({"case":attrs,"round":round,"why":why,"recut_archive":hex(&out[..out.len().min(3000)])}));
+                            if why.starts_with("panic") { ctx.violation("C07", "reader panicked on a re-cut archive", json!({"case":attrs,"why":why})); }
+                        }
+                    }
+                    // the model reads the re-cut archive structurally to the same entries (data slicing aside)
+                    if out.len() < 6000 {
+                        ctx.case(json!({"op":"recut","writer":format!("{:?}",kind)}), format!("archive.read.stream {}", hexw(&out)), canon::read_stream(&out), true);
+                    }
+                }
+            }
+        }
         // ---------- independent reference reader (C14)
         ctx.oracle_eval();
         match refdec::strict_archive(&bytes, vec![], false) {
